@@ -207,3 +207,8 @@ CORPUS_C02: list = [
 
 PROP = Prop()
 CORPUS = mut.CORPUS + CORPUS_C02
+
+import parts  # noqa: E402
+import parts_misc  # noqa: E402
+
+parts.attach(PROP, parts_misc.WRAP)   # common.DictWrapper (model Forest/MiscWrap.v, theorems at the end of Properties/C02.v)
